@@ -4,4 +4,4 @@ Extraction Language OCaml.
 Extraction "model.ml"
   xb_zadd xb_zmul xb_zdiv xb_zmod xb_zopp xb_zltb xb_nadd xb_nmul xb_ndiv xb_nmod xb_z_of_n xb_n_of_z xb_n_of_nat xb_nat_of_n xb_keep
   streamReplayCapacity streamReplayInterval_ns packetReplayCapacity packetReplayInterval_ns
-  new_cache is_duplicate is_duplicate_v0 step final outs sizes.
+  new_cache is_duplicate is_duplicate_v0 step final outs sizes set_users sstep sfinal presents.
